@@ -135,6 +135,8 @@ class RecIO(sc.StageIO):
         return b""
 
     def write(self, buf):
+        if len(self.wlog) > 300:
+            raise cc.Blocked()        # a poll loop without timeout against a dead console: it would go on for ever
         self.wlog.append([self.clock.t, bytes(buf), bytes(self.seen)])
         return super().write(buf)
 
@@ -144,6 +146,11 @@ class RecIO(sc.StageIO):
         d = sc.ScriptIO.read(self, n, timeout)
         self.seen += d
         return d
+
+
+def seen_summary(seen: bytes):
+    """what matters of the console output received before a write (kept small: observations are held in memory)"""
+    return {"login": b"login: " in seen, "pw": b"Password: " in seen, "auto": b"autoboot:" in seen, "tail": bytes(seen[-60:]).hex()}
 
 
 def mk_linux(io, cfg, power, with_shell):
@@ -198,7 +205,7 @@ def run_boot(case, with_shell):
             res = ["blocked", clock.t]
         except Exception as e:  # noqa
             res = ["exc", clock.t, type(e).__name__, str(e)[:100]]
-    writes = [[t, b.hex(), s.hex()] for t, b, s in io.wlog]
+    writes = [[t, b.hex(), seen_summary(s)] for t, b, s in io.wlog]
     case["_stages"] = [[[t, d.hex()] for t, d in st] for st in io.stage_log]
     return [res, [[t, b] for t, b, _ in io.wlog], power.ev, first, bootlog, writes, sim.lines]
 
@@ -210,14 +217,14 @@ def login_oracle(case, obs, with_shell):
     user = cfg["user"].encode() + b"\r"
     pw = (cfg["password"] or "").encode() + b"\r"
     # what is sent when: the user name only in response to a login prompt, the password only to a password prompt
-    for t, bhex, seenhex in writes:
-        b, seen = bytes.fromhex(bhex), bytes.fromhex(seenhex)
+    for t, bhex, seen in writes:
+        b = bytes.fromhex(bhex)
         if b == user and user != pw:
-            if b"login: " not in seen:
-                fails.append(f"the user name was sent at t={t} although no login prompt had been received: console so far {seen[-60:]!r}")
+            if not seen["login"]:
+                fails.append(f"the user name was sent at t={t} although no login prompt had been received: console so far {bytes.fromhex(seen['tail'])!r}")
         if cfg["password"] and b == pw and user != pw:
-            if b"Password: " not in seen:
-                fails.append(f"the password was sent at t={t} although no password prompt had been received: console so far {seen[-60:]!r}")
+            if not seen["pw"]:
+                fails.append(f"the password was sent at t={t} although no password prompt had been received: console so far {bytes.fromhex(seen['tail'])!r}")
     # the board is powered on first and powered off last
     if not power or power[0][0] != "on" or power[-1][0] != "off" or len(power) != 2:
         fails.append(f"power sequence {power!r}")
@@ -301,7 +308,7 @@ class LoginSuite(Suite):
         return None
 
     def gen(self, tier, rng):
-        for _ in range(1500 if tier == "quick" else 12000):
+        for _ in range(1500 if tier == "quick" else 6000):
             cfg = rand_cfg(rng, tier)
             if cfg["boot_timeout"] is None and cfg["stall"] is not None and cfg["no_pw_timeout"] is None:
                 cfg["boot_timeout"] = 5120        # otherwise the run just blocks, which is the documented behaviour
@@ -329,7 +336,7 @@ class FullBootSuite(Suite):
         return None
 
     def gen(self, tier, rng):
-        for _ in range(300 if tier == "quick" else 3000):
+        for _ in range(300 if tier == "quick" else 1500):
             cfg = rand_cfg(rng, tier)
             cfg["stall"] = None
             cfg["pw_prompt"] = True if cfg["password"] else cfg["pw_prompt"]
